@@ -576,6 +576,10 @@ class Executor:
         if isinstance(n, ast.If):
             c = ev.eval(n.test)
             return self._branch(st, c, lambda s: self._exec_block(n.body, s, k), lambda s: self._exec_block(n.orelse, s, k))
+        if isinstance(n, ast.Break):
+            if not getattr(self, "_break_ks", None):
+                raise Outside("break outside a loop")
+            return self._break_ks[-1](st)
         if isinstance(n, ast.While):
             return self._loop(n, st, k)
         if isinstance(n, ast.For):
@@ -680,7 +684,7 @@ class Executor:
 
             def first(s1):
                 s1.env[n.target.id] = 0
-                self._loop_body(n.body, s1, lambda s2: self._loop(n, s2, k, start_override=1))
+                self._loop_body(n.body, s1, lambda s2: self._loop(n, s2, k, start_override=1), break_k=k)
 
             return self._branch(st, Z(hi0) > 0, first, k)
         if spec.kind and spec.kind != kind:
@@ -790,8 +794,15 @@ class Executor:
                     self.oblige(s, z3.And(Z(d1) < Z(dec0), Z(dec0) >= 0) if not it else True, f"{lab}.decreases", "term", n.lineno)
                 self.paths += 1
 
+            def on_break(sb):
+                if it:
+                    sb.env.pop("__lo", None)
+                    sb.env.pop("__hi", None)
+                self.paths += 1
+                k(sb)
+
             try:
-                self._loop_body(n.body, bst, after_body)
+                self._loop_body(n.body, bst, after_body, break_k=on_break)
             except PathEnd:
                 pass
         # exit branch
@@ -804,12 +815,19 @@ class Executor:
                 xst.env.pop("__hi", None)
             k(xst)
 
-    def _loop_body(self, body, st, after):
-        # `break` / `continue` are not in the subset (checked syntactically)
+    def _loop_body(self, body, st, after, break_k=None):
+        # `continue` is not in the subset (checked syntactically); `break` continues with the code after the loop,
+        # in the (inductive) state it is reached in
         for n in ast.walk(ast.Module(body=body, type_ignores=[])):
-            if isinstance(n, (ast.Break, ast.Continue)):
-                raise Outside("break/continue")
-        self._exec_block(body, st, after)
+            if isinstance(n, ast.Continue):
+                raise Outside("continue")
+        if not hasattr(self, "_break_ks"):
+            self._break_ks = []
+        self._break_ks.append(break_k)
+        try:
+            self._exec_block(body, st, after)
+        finally:
+            self._break_ks.pop()
 
     def _self_key(self, st, attr):
         o = st.env.get("self")
@@ -947,6 +965,15 @@ class Evaluator:
     def e_List(self, n):
         return [self.eval(e) for e in n.elts]
 
+    def e_Set(self, n):
+        vals = [self.eval(e) for e in n.elts]
+        if not all(isinstance(v, (str, int)) for v in vals):
+            raise Outside("set of non-literals")
+        return frozenset(vals)
+
+    def e_JoinedStr(self, n):
+        return "<formatted string>"
+
     def e_Attribute(self, n):
         # module-qualified names (np.pad, config.LOG_FLOOR_VALUE, np.fft.rfft) stay symbolic paths
         dotted = _dotted(n)
@@ -957,7 +984,7 @@ class Evaluator:
         o = self.eval(n.value)
         if hasattr(o, "sym_getattr"):
             return o.sym_getattr(n.attr, self, n)
-        if isinstance(o, Prod) or is_z3(o):
+        if isinstance(o, (Prod, Opaque)) or is_z3(o):
             h = self.ex.contract.handlers.get("attr_any")
             if h:
                 r = h(self.ex, self.st, o, n.attr, n, self)
@@ -997,6 +1024,8 @@ class Evaluator:
             return Method(o, n.attr)
         if isinstance(o, list):
             return Method(o, n.attr)
+        if isinstance(o, str) and n.attr == "format":
+            return PyCallable(lambda ev2, args, kwargs, node: "<formatted string>")
         h = self.ex.contract.handlers.get("attr_any")
         if h:
             r = h(self.ex, self.st, o, n.attr, n, self)
@@ -1057,6 +1086,11 @@ class Evaluator:
         return simp(z3.And(*[Zb(o) for o in out])) if len(out) > 1 else out[0]
 
     def compare(self, op, a, b, n):
+        hc = self.ex.contract.handlers.get("compare")
+        if hc is not None:
+            r = hc(self.ex, self.st, op, a, b, n, self)
+            if r is not NotImplemented:
+                return r
         if isinstance(op, (ast.Is, ast.IsNot)):
             if b is None or a is None:
                 r = (a is None) and (b is None)
